@@ -28,7 +28,9 @@ EXPLANATION = (
     ' '
     'R-C16.7 queue_evolve_all_apps queues every installed app (no path around the queueing call inside the loop).'
     ' '
-    'R-C16.8 the per-task loop of _build_batches has no break.')
+    'R-C16.8 the per-task loop of _build_batches has no break.'
+    ' '
+    'R-C16.9 the per-database SQL evolution file is <database>_<label>.sql.')
 NOT_DECIDED = 'Behaviour under arbitrary routers and model splits.'
 TECHNIQUE = ('CFG must-pass-through with short-circuit expansion '
              '(is_mutable), control dependence of membership on the router '
@@ -651,7 +653,41 @@ def r8_every_task_of_a_batch_is_built(ctx):
     ctx.floor('per-task loops in _build_batches', n, 1)
 
 
+def r9_per_database_sql_file_name(ctx):
+    """A raw-SQL evolution is routed to a database by its file name only:
+    `<label>.sql` runs everywhere, `<database>_<label>.sql` on that database
+    (docs: "db_name_evolution_name.sql").  get_app_mutations() must build
+    the second name in that order; with the two strings swapped the file is
+    never found, nothing runs on that database, and the evolution is
+    recorded as applied."""
+    ctx.rule('R-C16.9')
+    p = ctx.program
+    f = p.func('utils.evolutions', 'get_app_mutations')
+    n = 0
+    from ..util import unit
+    for fn in unit(ctx, f):
+      for b in walk_no_nested(fn.node):
+        if isinstance(b, ast.BinOp) and isinstance(b.op, ast.Mod) and \
+                const_str(b.left) == '%s_%s.sql' and \
+                  isinstance(b.right, ast.Tuple) and len(b.right.elts) == 2:
+              n += 1
+              first = unparse(b.right.elts[0])
+              if 'database' in first or first.startswith('db'):
+                  ctx.ok(f, 'per-database SQL evolution file is '
+                         '<database>_<label>.sql', b)
+              else:
+                  ctx.finding(f, b, 'get_app_mutations looks for the '
+                              'per-database SQL evolution under "%s" - the '
+                              'documented name is <database>_<label>.sql; the '
+                              'shipped file is never found and the evolution '
+                              'is recorded without running' %
+                              ' '.join(unparse(b).split()),
+                              key='per-db-sql-name-order')
+    ctx.floor('per-database SQL file name patterns', n, 1)
+
+
 def run(ctx):
+    r9_per_database_sql_file_name(ctx)
     r8_every_task_of_a_batch_is_built(ctx)
     r7_every_installed_app_is_queued(ctx)
     r6_no_mutation_of_iterated_container(ctx)
